@@ -23,7 +23,7 @@ Lemma restore_gateway_no_route c n g : no_route_writes (tr_writes (restore_gatew
 Proof. unfold restore_gateway, finalise_routes. destruct (negb (tc_refs c)); [reflexivity|]. destruct (tc_gateway_fails c); [reflexivity|]. destruct (n_route n);
   destruct (with_grace _ _ _ _ _) as [rt g']; reflexivity. Qed.
 Lemma remove_canary_no_route c n g : no_route_writes (tr_writes (remove_canary_service c n g)).
-Proof. unfold remove_canary_service. destruct (negb (tc_refs c)); [reflexivity|].
+Proof. unfold remove_canary_service. destruct (negb (tc_refs c)); [reflexivity|]. destruct (tc_only_traffic c); [reflexivity|].
   destruct (with_grace _ _ _ _ _) as [rt g']. cbn [tr_writes]. destruct (n_canary_svc n); reflexivity. Qed.
 Lemma seq_tres_no_route a k : no_route_writes (tr_writes a) -> (forall g, no_route_writes (tr_writes (k g))) -> no_route_writes (tr_writes (seq_tres a k)).
 Proof. intros Ha Hk. unfold seq_tres. destruct (tr_err a || negb (tr_ok a)); cbn [tr_writes]; [exact Ha|]. apply no_route_app; auto. Qed.
@@ -33,12 +33,12 @@ Proof. unfold finalising_traffic_routing. destruct (negb (tc_refs c)); [reflexiv
 
 (* DoTrafficRouting touches the gateway only when both Services are already as they must be and the grace period
    after the last change has passed; it writes nothing else in that call *)
-Lemma do_traffic_route_write c n g :
+Lemma do_traffic_route_write c n g : tc_only_traffic c = false ->
   no_route_writes (tr_writes (do_traffic_routing c n g)) \/
   (n_canary_svc n = Some (tc_canary_rev c) /\ n_stable_sel n = Some (tc_stable_rev c) /\ tc_last_update c <> Some false /\
    exists s, tr_writes (do_traffic_routing c n g) = [WRoute s] /\ (s = tc_strategy c \/ (n_route n = RNone /\ s = init_strategy))).
 Proof.
-  unfold do_traffic_routing.
+  intros Honly. unfold do_traffic_routing. rewrite Honly. cbn [negb andb].
   destruct (negb (tc_refs c)); [left; reflexivity|]. destruct (strategy_empty (tc_strategy c)); [left; reflexivity|].
   destruct (negb (n_stable_exists n)); [left; reflexivity|].
   destruct (match tc_last_update c with Some false => true | _ => false end) eqn:Elu; [left; reflexivity|].
@@ -65,12 +65,12 @@ Proof. destruct a as [w1 m1], b as [w2 m2]. unfold strategy_eqb; cbn. intros H. 
 
 (* when DoTrafficRouting reports done for a step that configures traffic, the gateway carries exactly that strategy and
    both Services select what they must; nothing was written by that call *)
-Lemma do_traffic_done c n g : tc_refs c = true -> strategy_empty (tc_strategy c) = false ->
+Lemma do_traffic_done c n g : tc_refs c = true -> tc_only_traffic c = false -> strategy_empty (tc_strategy c) = false ->
   tr_ok (do_traffic_routing c n g) = true ->
   tr_writes (do_traffic_routing c n g) = [] /\ n_canary_svc n = Some (tc_canary_rev c) /\ n_stable_sel n = Some (tc_stable_rev c) /\
   (n_route n = RSet (tc_strategy c) \/ (n_route n = RNone /\ tc_strategy c = init_strategy)).
 Proof.
-  intros Hr He. unfold do_traffic_routing. rewrite Hr, He. cbn [negb].
+  intros Hr Honly He. unfold do_traffic_routing. rewrite Hr, Honly, He. cbn [negb andb].
   destruct (negb (n_stable_exists n)); [discriminate|].
   destruct (match tc_last_update c with Some false => true | _ => false end); [discriminate|].
   destruct (sempty (tc_stable_rev c) || sempty (tc_canary_rev c)); [discriminate|].
@@ -114,7 +114,7 @@ Proof.
     destruct (canary_upgrade_shape (ts_sp t) (set_state u StUpgrade false) w br cur) as (u' & br' & rq & E). rewrite E. intros H; injection H as <-. exact Hab.
   - intros H. exfalso. apply Hw. revert H. destruct (canary_upgrade_shape (ts_sp t) u w br cur) as (u' & br' & rq & E). rewrite E. intros H; injection H as <-. exact H0.
   - split; [reflexivity|]. revert H.
-    destruct (do_traffic_route_write (mk_ctx t u) n g) as [Hn|(Hc & Hs & Hl & s & Hws & _)].
+    destruct (do_traffic_route_write (mk_ctx t u) n g eq_refl) as [Hn|(Hc & Hs & Hl & s & Hws & _)].
     + intros H. exfalso. apply Hw. revert H. destruct (tr_err (do_traffic_routing (mk_ctx t u) n g)); intros H; injection H as <-; apply no_route_app; auto.
     + exists s. cbn [mk_ctx tc_canary_rev tc_stable_rev tc_last_update] in Hc, Hs, Hl.
       assert (Hel : su_elapsed u = true) by (destruct (su_elapsed u); congruence).
@@ -358,7 +358,7 @@ Proof.
   set (x := do_traffic_routing (mk_ctx t u) n g).
   destruct (tr_err x) eqn:Ex; intros H; injection H as <-; cbn in He; [discriminate|].
   cbn [co_sub co_writes] in *. destruct (tr_ok x) eqn:Eok.
-  - destruct (do_traffic_done (mk_ctx t u) n g Hr Hne Eok) as (Hw & Hc & Hss & Hroute). fold x in Hw.
+  - destruct (do_traffic_done (mk_ctx t u) n g Hr eq_refl Hne Eok) as (Hw & Hc & Hss & Hroute). fold x in Hw.
     cbn [mk_ctx tc_canary_rev tc_stable_rev tc_strategy] in Hc, Hss, Hroute. rewrite Hw.
     destruct (touch_keeps u x) as (_ & _ & _ & Hp).
     split; [reflexivity|]. split; [congruence|]. split; [cbn; rewrite Hp; exact Hc|]. rewrite <- Hi. exact Hroute.
@@ -425,10 +425,10 @@ Proof.
   destruct (n_route n) eqn:Er; destruct (with_grace _ _ _ _ _) as [rt g']; cbn; intros _; [exact Er|reflexivity].
 Qed.
 
-Lemma remove_canary_ok_effect c n g : tc_refs c = true -> tr_ok (remove_canary_service c n g) = true ->
+Lemma remove_canary_ok_effect c n g : tc_refs c = true -> tc_only_traffic c = false -> tr_ok (remove_canary_service c n g) = true ->
   n_canary_svc (apply_writes n (tr_writes (remove_canary_service c n g))) = None.
 Proof.
-  intros Hr. unfold remove_canary_service. rewrite Hr. cbn [negb].
+  intros Hr Honly. unfold remove_canary_service. rewrite Hr, Honly. cbn [negb].
   destruct (n_canary_svc n) eqn:Ec; destruct (with_grace _ _ _ _ _) as [rt g']; cbn; intros _; [reflexivity|exact Ec].
 Qed.
 
@@ -500,7 +500,7 @@ Proof.
   unfold do_traffic_routing.
   destruct (negb (tc_refs c)); [discriminate|]. destruct (strategy_empty (tc_strategy c)); [discriminate|].
   destruct (negb (n_stable_exists n)); [discriminate|]. destruct (match tc_last_update c with Some false => true | _ => false end); [discriminate|].
-  destruct (sempty (tc_stable_rev c) || sempty (tc_canary_rev c)); [discriminate|].
+  destruct (negb (tc_only_traffic c) && (sempty (tc_stable_rev c) || sempty (tc_canary_rev c))); [discriminate|].
   destruct (_ ++ _) eqn:E; [|reflexivity].
   destruct (tc_gateway_fails c); [discriminate|]. unfold ensure_routes. destruct (n_route n); [destruct (strategy_eqb _ _)|destruct (strategy_eqb _ _)]; cbn; discriminate.
 Qed.
